@@ -72,6 +72,8 @@ pub struct Config {
     pub dedup: bool,
     pub deadline: Option<Instant>,
     pub expected_letters: Vec<String>,
+    /// record (instead of aborting on) a prefix step that fails when a history is re-executed
+    pub tolerate_divergent_replay: bool,
 }
 
 impl Config {
@@ -86,6 +88,7 @@ impl Config {
             dedup: false,
             deadline: None,
             expected_letters: vec![],
+            tolerate_divergent_replay: false,
         }
     }
 }
@@ -109,25 +112,31 @@ struct Shared<'a, S: System> {
 /// Rebuild the state reached by `choices` on a fresh system. A failing step here means the
 /// harness does not own all nondeterminism: that is a machinery error, never a verdict.
 pub fn rebuild<S: System>(fresh: &(dyn Fn() -> S + Sync), choices: &[u16]) -> S {
+    match rebuild_checked(fresh, choices) {
+        Ok(s) => s,
+        Err((d, m)) => machinery(&format!("divergent replay: prefix step {} of {:?} failed on rebuild: {} {}", d, choices, m.class, m.detail)),
+    }
+}
+
+/// As `rebuild`, but hands a failing prefix step back to the caller (used for the one subject whose
+/// behaviour may legitimately depend on hash-map iteration order; see Config::tolerate_divergent_replay).
+pub fn rebuild_checked<S: System>(fresh: &(dyn Fn() -> S + Sync), choices: &[u16]) -> Result<S, (usize, Mismatch)> {
     let mut s = fresh();
     for (d, &c) in choices.iter().enumerate() {
         let ops = s.enabled();
-        let op = ops.get(c as usize).unwrap_or_else(|| {
-            machinery(&format!(
-                "divergent replay: choice {} out of range at depth {} ({} enabled)",
-                c,
-                d,
-                ops.len()
-            ))
-        });
-        if let Err(m) = s.step(op) {
-            machinery(&format!(
-                "divergent replay: prefix step {:?} failed on rebuild: {} {}",
-                op, m.class, m.detail
-            ));
+        let Some(op) = ops.get(c as usize) else {
+            return Err((d, Mismatch::new("divergent_replay", format!("choice {} out of range at depth {} ({} enabled)", c, d, ops.len()))));
+        };
+        let r = catch_unwind(AssertUnwindSafe(|| s.step(op)));
+        let r = match r {
+            Ok(r) => r,
+            Err(_) => Err(Mismatch::new("panic", take_panic())),
+        };
+        if let Err(m) = r {
+            return Err((d, m));
         }
     }
-    s
+    Ok(s)
 }
 
 pub fn machinery(msg: &str) -> ! {
@@ -171,6 +180,17 @@ impl<'a, S: System> Shared<'a, S> {
         }
     }
 
+    /// a prefix that passed once failed when re-executed: a real execution that breaks the oracle
+    /// (behaviour depends on something outside the history, e.g. hash-map iteration order)
+    fn record_divergent(&self, choices: &[u16], d: usize, m: Mismatch, rep: &mut Report) {
+        let ch: Vec<u16> = choices[..=d].to_vec();
+        let ops_r = render(self.fresh, &ch);
+        let mut tags = m.tags.clone();
+        tags.push("outcome_depends_on_hash_order".to_string());
+        rep.count("divergent_replays", 1);
+        rep.violation(Violation { class: m.class, detail: m.detail, tags, case: json!({"sub": self.cfg.sub, "ctx": self.cfg.ctx, "choices": ch, "history": ops_r, "repeat": 40}) });
+    }
+
     fn leaf(&self, choices: &[u16], rep: &mut Report) {
         rep.count("traces", 1);
         if rep.samples.len() < 2 {
@@ -203,7 +223,16 @@ impl<'a, S: System> Shared<'a, S> {
             } else {
                 match parent.as_ref().unwrap().try_clone() {
                     Some(s) => s,
-                    None => rebuild(self.fresh, choices),
+                    None => match rebuild_checked(self.fresh, choices) {
+                        Ok(s) => s,
+                        Err((d, m)) => {
+                            if !cfg.tolerate_divergent_replay {
+                                machinery(&format!("divergent replay: prefix step {} of {:?} failed on rebuild: {} {}", d, choices, m.class, m.detail));
+                            }
+                            self.record_divergent(choices, d, m, rep);
+                            continue;
+                        }
+                    },
                 }
             };
             rep.letter(&S::kind(op));
@@ -280,7 +309,16 @@ pub fn explore<S: System>(fresh: &(dyn Fn() -> S + Sync), cfg: &Config) -> Repor
         while !frontier.is_empty() && frontier.len() < target && depth < cfg.max_depth {
             let mut next_level = Vec::new();
             for (ch, ph, cost) in frontier.drain(..) {
-                let sys = rebuild(fresh, &ch);
+                let sys = match rebuild_checked(fresh, &ch) {
+                    Ok(s) => s,
+                    Err((d, m)) => {
+                        if !cfg.tolerate_divergent_replay {
+                            machinery(&format!("divergent replay: prefix step {} of {:?} failed on rebuild: {} {}", d, ch, m.class, m.detail));
+                        }
+                        shared.record_divergent(&ch, d, m, &mut rep);
+                        continue;
+                    }
+                };
                 let mut choices = ch.clone();
                 shared.expand(sys, &mut choices, ph, cost, &mut rep, Some((&mut next_level, depth + 1)));
             }
@@ -314,7 +352,16 @@ pub fn explore<S: System>(fresh: &(dyn Fn() -> S + Sync), cfg: &Config) -> Repor
                                     break;
                                 }
                                 let (ch, ph, cost) = &frontier[k];
-                                let sys = rebuild(shared.fresh, ch);
+                                let sys = match rebuild_checked(shared.fresh, ch) {
+                                    Ok(s) => s,
+                                    Err((d, m)) => {
+                                        if !shared.cfg.tolerate_divergent_replay {
+                                            machinery(&format!("divergent replay: prefix step {} of {:?} failed on rebuild: {} {}", d, ch, m.class, m.detail));
+                                        }
+                                        shared.record_divergent(ch, d, m, &mut r);
+                                        continue;
+                                    }
+                                };
                                 let mut choices = ch.clone();
                                 shared.expand(sys, &mut choices, *ph, *cost, &mut r, None);
                             }
@@ -465,6 +512,35 @@ pub fn closure<S: System>(fresh: &(dyn Fn() -> S + Sync), cfg: &Config) -> Repor
 }
 
 /// Replay a recorded case (list of choices) twice; both runs must give the same verdict.
+/// Replay up to `n` times; the first failing run is the verdict (for outcomes that depend on hash order).
+pub fn replay_repeated<S: System>(fresh: &(dyn Fn() -> S + Sync), choices: &[u16], n: usize) -> Result<Vec<String>, (Vec<String>, Mismatch)> {
+    let mut last = Ok(vec![]);
+    for _ in 0..n.max(1) {
+        let mut s = fresh();
+        let mut hist = Vec::new();
+        let mut failed = None;
+        for &c in choices {
+            let ops = s.enabled();
+            let Some(op) = ops.get(c as usize) else { break };
+            hist.push(format!("{:?}", op));
+            let r = catch_unwind(AssertUnwindSafe(|| s.step(op)));
+            let r = match r {
+                Ok(x) => x,
+                Err(_) => Err(Mismatch::new("panic", take_panic())),
+            };
+            if let Err(m) = r {
+                failed = Some(m);
+                break;
+            }
+        }
+        match failed {
+            Some(m) => return Err((hist, m)),
+            None => last = Ok(hist),
+        }
+    }
+    last
+}
+
 pub fn replay<S: System>(fresh: &(dyn Fn() -> S + Sync), choices: &[u16]) -> Result<Vec<String>, (Vec<String>, Mismatch)> {
     let run = || -> Result<Vec<String>, (Vec<String>, Mismatch)> {
         let mut s = fresh();
